@@ -48,7 +48,7 @@ CLAIMED = {
          "Phase 2 (40 % of the budget) runs the real readLoop, the 32-slot receive queue, the receive loop and sendLoop as goroutines on simulated connections under the E2 scheduler and the race detector: 1-2 well-behaved peers stream bursts cut at arbitrary offsets while the handler is scheduled like any other goroutine (decoded messages queue up while later reads arrive), optionally ending in one malformed frame; the delivered sequence must be exactly the sent one with intact content, nothing after the malformed frame, the matching disconnect reason, no disconnect of a well-formed stream, no race report. In phase 1 the receive path is stepped (hook H4: decodeData, convertToMessage, receiveMessage, handlers are the real code; the three per-connection goroutines and the 32-slot receive queue between them are not). Message delivery is observed through replies, so only reply-producing message types are distinguishable."),
  "C23": ("exploration", "4.1, 5 C23", "wire monitor on every frame and send error of real nodes in a simulated network; boundary-seeking workload incl. a small-limits profile with a hash-announcing peer",
          "With per-run knobs (maximum outgoing length from its legal minimum, response cap, request count) and a workload that packs the publisher's pool to the block size limit, every frame any node puts on the wire must fit the limit, no message a node built may be refused by its own send step as too long, and every GIVB answering a GETB must contain exactly the longest prefix of the requested blocks that fits (sizes from the harness' own encoder).",
-         "Partial: daemon.New refuses limits below one maximum-size block, so GIVP truncation (peer lists are far smaller) and sub-minimum lengths stay pure-function space. With the size limits at their legal minimum (small-limits profile) GETT truncation is reached through a scripted peer announcing up to 256 unknown hashes and checked as longest fitting prefix; ANNT truncation would additionally need a pool of more than (limit-8)/32 transactions and is reached only when the workload happens to build one. GIVT prefix content is not compared (only that the frame fits and the send step accepts it)."),
+         "Partial: daemon.New refuses limits below one maximum-size block, so GIVP truncation (peer lists are far smaller) and sub-minimum lengths stay pure-function space. With the size limits at their legal minimum (small-limits profile) GETT truncation is reached through a scripted peer announcing up to 256 unknown hashes and checked as longest fitting prefix; ANNT truncation is reached in the flood sub-profile (fan-out blocks every node starts with, 20-80 small transactions handed to one node, a late peer whose introduction makes the node announce all of them): every announcement but the last must carry min(per-message cap, what fits). GIVT prefix content is not compared (only that the frame fits and the send step accepts it)."),
  "C24": ("exploration", "4.1, 5 C24", "seeded connection-event histories against one real node (bookkeeping vs. the pool's live set after every event) plus direct event histories on the bookkeeping object alone",
          "Scripted peers on 3 IPs x 3 ports with mirrors in {0, own, A, B} and listen ports in {0, p, q, own}: incoming connects, outgoing attempts and their success/failure, introductions, other messages, disconnects, cull/stale/ping ticks; after every event the connection list must equal the connections the gnet pool really holds plus unresolved attempts, per-IP counts / IP+mirror registry / id map / listen-address map must be exactly what that list implies, state transitions must be legal, and after removing everything all five maps must be empty.",
          "A third of the runs drive the bookkeeping object alone (hook H5) with events the pool never produces (second connect for a held address, stale / foreign / zero ids, an introduced peer without listen port that stays, removals with a wrong id): a refused event must leave all maps untouched, an accepted one must change exactly its own entry, the secondary maps must be what the connection list implies. An incoming connection from exactly the address of a pending outgoing attempt (merged by the node) is kept out of the workload. Sampling."),
